@@ -362,6 +362,86 @@ Theorem C01_model_passes_on_the_wire : forall v,
 Proof. exact (fun v H => proj1 (proj2 (wire_model_passes v H))). Qed.
 Print Assumptions C01_model_passes_on_the_wire.
 
+(* ---- 8. packets given by their bytes; the join replay holds no packet twice -------------------
+   A case of the check may give a packet as (id _ channel xPAYLOAD): its kind is then what the pack
+   caches' classifier makes of the bytes (Model/C02Classify.v, [raw_pkt] of Model/C04RawPkt.v) - ONE
+   kind per packet.  An aggregation packet (RFC 6184 STAP-A, RFC 7798 AP) that carries several
+   parameter sets is classified by the highest-priority one (VPS, SPS, PPS) and is therefore stored
+   in one slot of the cache; the replay a late joiner is given holds it once, like every other
+   packet, and what a consumer receives does not depend on when it attached in any other way than
+   replay ++ live.  [x_C01_ok] computes [ok_C01] on the normalised case
+   (C01_model_passes_on_the_wire_raw). *)
+From V Require Import C02Classify C04RawPkt C01RawJoinProofs.
+
+Theorem C01_agg_packet_one_kind : forall c x y nals i,
+  pform_ok c (PAgg x y nals) = true ->
+  p_kind (raw_pkt c i 0 (agg_header c x y ++ concat (map agg_entry nals))) = agg_class c nals.
+Proof. exact agg_kind. Qed.
+Print Assumptions C01_agg_packet_one_kind.
+
+(* the cache stores a packet once: ids of the snapshot stay pairwise distinct *)
+Theorem C01_cache_stores_once : forall ca p,
+  NoDup (map p_id (rc_snap ca)) -> ~ In (p_id p) (map p_id (rc_snap ca)) ->
+  NoDup (map p_id (rc_snap (rc_add ca p))).
+Proof. exact rc_add_stores_once. Qed.
+Print Assumptions C01_cache_stores_once.
+
+(* every codec, every list of (id, channel, payload bytes) with distinct ids, every schedule *)
+Theorem C01_join_prefix_nodup : forall cd raws (c : lcase),
+  l_var c = fixed -> l_pkts c = map (raw3 cd) raws ->
+  NoDup (map (fun r => fst (fst r)) raws) ->
+  forall i, let k := s_cs (lrun c) i in
+  NoDup (map p_id (c_prefill k)) /\ NoDup (map p_id (c_out k)) /\
+  (forall x, In x (c_prefill k) -> In x (l_pkts c)).
+Proof. exact join_prefix_nodup. Qed.
+Print Assumptions C01_join_prefix_nodup.
+
+Theorem C01_join_prefix_nodup_on_the_wire : forall v,
+  l_var (dec_lcase v) = fixed ->
+  let c := dec_lcase (norm_case v) in
+  NoDup (map p_id (l_pkts c)) ->
+  forall i, let k := s_cs (lrun c) i in
+  NoDup (map p_id (c_prefill k)) /\ NoDup (map p_id (c_out k)).
+Proof. exact wire_join_prefix_nodup. Qed.
+Print Assumptions C01_join_prefix_nodup_on_the_wire.
+
+Theorem C01_model_passes_on_the_wire_raw : forall v,
+  l_var (dec_lcase v) = fixed ->
+  ok_C01 (dec_lcase (norm_case v)) (dec_obs (lts_run (norm_case v))) = true.
+Proof. exact raw_model_passes_C01. Qed.
+Print Assumptions C01_model_passes_on_the_wire_raw.
+
+(* AP(VPS+SPS+PPS) is kind 5, STAP-A(SPS+PPS) kind 3; a cache given the packet replays it once *)
+Example C01_agg_packets_one_slot :
+  let p5 := raw_pkt H265 1001 0 hevc_ap3 in
+  let p4 := raw_pkt H264 1002 0 avc_stap2 in
+  pform_ok H265 (PAgg 96 1 [hevc_vps; hevc_sps; hevc_pps]) = true /\
+  pform_ok H264 (PAgg 96 0 [avc_sps; avc_pps]) = true /\
+  p_kind p5 = 5%Z /\ p_kind p4 = 3%Z /\
+  rc_snap (rc_add (rc_empty true) p5) = [p5] /\ rc_snap (rc_add (rc_empty false) p5) = [p5] /\
+  rc_snap (rc_add (rc_empty true) p4) = [p4].
+Proof. exact agg_packets_one_slot. Qed.
+
+(* non-vacuity: a late joiner after AP(VPS+SPS+PPS), IDR, TRAIL is replayed [AP; IDR; TRAIL] *)
+Example C01_join_prefix_nodup_nonvacuous :
+  let s := lrun agg_join_case in
+  NoDup (map (fun r => fst (fst r)) agg_join_raws) /\
+  map p_kind (l_pkts agg_join_case) = [5; 2; 1; 1; 0]%Z /\
+  map p_id (c_prefill (s_cs s 1)) = [1001; 2; 3]%Z /\
+  map p_id (c_out (s_cs s 1)) = [1001; 2; 3; 4; 5]%Z /\
+  map p_id (c_out (s_cs s 0)) = [1001; 2; 3; 4; 5]%Z.
+Proof. exact join_prefix_nodup_nonvacuous. Qed.
+
+(* the oracle rejects the observation a cache with the AP in three slots produces *)
+Example C01_replay_in_three_slots_rejected :
+  ok_C01 agg_join_case
+    {| o_cons := [obs_cons [1001; 2; 3; 4; 5]; obs_cons [1001; 1001; 1001; 2; 3; 4; 5]]%Z;
+       o_count := 2; o_ok := true; o_pp := 0; o_todo := 0; o_kp := 0 |} = false /\
+  ok_C01 agg_join_case
+    {| o_cons := [obs_cons [1001; 2; 3; 4; 5]; obs_cons [1001; 2; 3; 4; 5]]%Z;
+       o_count := 2; o_ok := true; o_pp := 0; o_todo := 0; o_kp := 0 |} = true.
+Proof. exact replay_in_three_slots_rejected. Qed.
+
 (* ---- 9. transport adapters ---------------------------------------------------------------------
    The theorems above speak about the list [c_out] of packets handed to a consumer.  A client sits
    behind a transport adapter (service/rtsp tcpConsumer incl. ws-rtsp, udpConsumer; service/wsp;
